@@ -78,11 +78,12 @@ func (h transactionsResourceHandler) ResolveFilter(_ common.ResourceQuery[any], 
 	case property == "id":
 		return fmt.Sprintf("id %s ?", common.ConvertOperatorToSQL(operator)), []any{value}, nil
 	case property == "reference":
+		// reference is nullable: see isNotNullAnd
 		switch operator {
 		case queries.OperatorIn:
-			return "reference IN (?)", []any{bun.In(value)}, nil
+			return isNotNullAnd("reference", "reference IN (?)"), []any{bun.In(value)}, nil
 		default:
-			return fmt.Sprintf("reference %s ?", common.ConvertOperatorToSQL(operator)), []any{value}, nil
+			return isNotNullAnd("reference", fmt.Sprintf("reference %s ?", common.ConvertOperatorToSQL(operator))), []any{value}, nil
 		}
 	case property == "timestamp" || property == "inserted_at" || property == "updated_at":
 		value, err := common.NormalizeDateFilterValue(value)
@@ -101,7 +102,8 @@ func (h transactionsResourceHandler) ResolveFilter(_ common.ResourceQuery[any], 
 		if err != nil {
 			return "", nil, err
 		}
-		return fmt.Sprintf("dataset.reverted_at %s ?", common.ConvertOperatorToSQL(operator)), []any{value}, nil
+		// reverted_at is null for a transaction that is not reverted: see isNotNullAnd
+		return isNotNullAnd("dataset.reverted_at", fmt.Sprintf("dataset.reverted_at %s ?", common.ConvertOperatorToSQL(operator))), []any{value}, nil
 	case property == "account":
 		switch operator {
 		case queries.OperatorIn:
